@@ -104,6 +104,25 @@ func runSeq(c SeqCase, rec *h.Rec) error {
 		skSnap.snap("output-secret-key", skOuts[i].Value)
 	}
 
+	// one protocol instance of every kind per party (own instances, or ShallowCopies of party 0's), RE-USED by every step
+	pkP := make([]multiparty.PublicKeyGenProtocol, n)
+	evkP := make([]multiparty.EvaluationKeyGenProtocol, n)
+	galP := make([]multiparty.GaloisKeyGenProtocol, n)
+	rlkP := make([]multiparty.RelinearizationKeyGenProtocol, n)
+	for i := 0; i < n; i++ {
+		if i == 0 || !c.Shallow {
+			pkP[i] = multiparty.NewPublicKeyGenProtocol(params)
+			evkP[i] = multiparty.NewEvaluationKeyGenProtocol(params)
+			galP[i] = multiparty.NewGaloisKeyGenProtocol(params)
+			rlkP[i] = multiparty.NewRelinearizationKeyGenProtocol(params)
+		} else {
+			pkP[i] = pkP[0].ShallowCopy()
+			evkP[i] = evkP[0].ShallowCopy()
+			galP[i] = galP[0].ShallowCopy()
+			rlkP[i] = rlkP[0].ShallowCopy()
+		}
+	}
+
 	// one CRS instance per party for the whole sequence
 	crs := make([]multiparty.CRS, n)
 	for i := range crs {
@@ -130,17 +149,18 @@ func runSeq(c SeqCase, rec *h.Rec) error {
 		case "pk":
 			var acc multiparty.PublicKeyGenShare
 			var crp0 multiparty.PublicKeyGenCRP
-			p := multiparty.NewPublicKeyGenProtocol(params)
+			ps := pkP
+			p := ps[0]
 			for i := 0; i < n; i++ {
-				crp := p.SampleCRP(crs[i])
+				crp := ps[i].SampleCRP(crs[i])
 				if i == 0 {
 					crp0 = crp
 				}
 				if err := sameCRP(k, i, []ringqp.Poly{crp.Value}, []ringqp.Poly{crp0.Value}); err != nil {
 					return err
 				}
-				sh := p.AllocateShare()
-				p.GenShare(w.sks[i], crp, &sh)
+				sh := ps[i].AllocateShare()
+				ps[i].GenShare(w.sks[i], crp, &sh)
 				if i == 0 {
 					acc = sh
 				} else {
@@ -155,17 +175,18 @@ func runSeq(c SeqCase, rec *h.Rec) error {
 		case "evk":
 			var acc multiparty.EvaluationKeyGenShare
 			var crp0 multiparty.EvaluationKeyGenCRP
-			p := multiparty.NewEvaluationKeyGenProtocol(params)
+			ps := evkP
+			p := ps[0]
 			for i := 0; i < n; i++ {
-				crp := p.SampleCRP(crs[i], ek)
+				crp := ps[i].SampleCRP(crs[i], ek)
 				if i == 0 {
 					crp0 = crp
 				}
 				if err := sameCRP(k, i, flatMatrix(crp.Value), flatMatrix(crp0.Value)); err != nil {
 					return err
 				}
-				sh := p.AllocateShare(ek)
-				if err := p.GenShare(w.sks[i], skOuts[i], crp, &sh); err != nil {
+				sh := ps[i].AllocateShare(ek)
+				if err := ps[i].GenShare(w.sks[i], skOuts[i], crp, &sh); err != nil {
 					return h.Failf("C14:EVK:GenShare-error", "%s party %d: %v", tag, i, err)
 				}
 				if i == 0 {
@@ -186,17 +207,18 @@ func runSeq(c SeqCase, rec *h.Rec) error {
 			sOut := bigToSk(params, ringAut(sI, gInv, c.Params.CI))
 			var acc multiparty.GaloisKeyGenShare
 			var crp0 multiparty.GaloisKeyGenCRP
-			p := multiparty.NewGaloisKeyGenProtocol(params)
+			ps := galP
+			p := ps[0]
 			for i := 0; i < n; i++ {
-				crp := p.SampleCRP(crs[i], ek)
+				crp := ps[i].SampleCRP(crs[i], ek)
 				if i == 0 {
 					crp0 = crp
 				}
 				if err := sameCRP(k, i, flatMatrix(crp.Value), flatMatrix(crp0.Value)); err != nil {
 					return err
 				}
-				sh := p.AllocateShare(ek)
-				if err := p.GenShare(w.sks[i], st.GalEl, crp, &sh); err != nil {
+				sh := ps[i].AllocateShare(ek)
+				if err := ps[i].GenShare(w.sks[i], st.GalEl, crp, &sh); err != nil {
 					return h.Failf("C14:GKG:GenShare-error", "%s party %d: %v", tag, i, err)
 				}
 				if i == 0 {
@@ -213,13 +235,14 @@ func runSeq(c SeqCase, rec *h.Rec) error {
 				return h.Failf("C14:SEQ:gal:not-a-key-of-the-ideal-secret", "%s: %v", tag, err)
 			}
 		case "rlk":
-			p := multiparty.NewRelinearizationKeyGenProtocol(params)
+			ps := rlkP
+			p := ps[0]
 			eph := make([]*rlwe.SecretKey, n)
 			r2 := make([]multiparty.RelinearizationKeyGenShare, n)
 			var acc1, acc2 multiparty.RelinearizationKeyGenShare
 			var crp0 multiparty.RelinearizationKeyGenCRP
 			for i := 0; i < n; i++ {
-				crp := p.SampleCRP(crs[i], ek)
+				crp := ps[i].SampleCRP(crs[i], ek)
 				if i == 0 {
 					crp0 = crp
 				}
@@ -227,8 +250,8 @@ func runSeq(c SeqCase, rec *h.Rec) error {
 					return err
 				}
 				var r1 multiparty.RelinearizationKeyGenShare
-				eph[i], r1, r2[i] = p.AllocateShare(ek)
-				p.GenShareRoundOne(w.sks[i], crp, eph[i], &r1)
+				eph[i], r1, r2[i] = ps[i].AllocateShare(ek)
+				ps[i].GenShareRoundOne(w.sks[i], crp, eph[i], &r1)
 				if i == 0 {
 					acc1 = r1
 				} else {
@@ -236,7 +259,7 @@ func runSeq(c SeqCase, rec *h.Rec) error {
 				}
 			}
 			for i := 0; i < n; i++ {
-				p.GenShareRoundTwo(eph[i], w.sks[i], acc1, &r2[i])
+				ps[i].GenShareRoundTwo(eph[i], w.sks[i], acc1, &r2[i])
 				if i == 0 {
 					acc2 = r2[0]
 				} else {
